@@ -25,7 +25,7 @@ theorem cacheRemove_view {s : State} (n i m : Nat) :
     · subst hm
       refine ⟨fun h => (by rw [hn] at h; cases h), fun q hq => ?_⟩
       rw [hn] at hq; cases hq
-      exact ⟨_, by simp [hqn], rfl, by simp⟩
+      exact ⟨{ qn with pods := qn.pods.filter (fun p => p.id != i) }, by simp [hqn], rfl, by simp⟩
     · have : ¬ m = qn.name := by rw [hqn]; exact hm
       simp only [this, if_false]
       exact ⟨fun h => h, fun q hq => ⟨q, hq, rfl, by simp [hm]⟩⟩
